@@ -39,9 +39,15 @@ type zzCountingBackend struct {
 	calls       int
 	release     chan struct{}
 	holdUntilN  int
+	gate        *zzGate
 }
 
 func (b *zzCountingBackend) RoundTrip(req *http.Request) (*http.Response, error) {
+	if b.gate != nil {
+		b.gate.mu.Lock()
+		b.gate.pending-- // this request has been counted and is now being forwarded
+		b.gate.mu.Unlock()
+	}
 	b.mu.Lock()
 	i := b.calls
 	b.calls++
@@ -77,10 +83,21 @@ type zzGate struct {
 	arrived int
 	open    chan struct{}
 	enabled bool
+	pending int // requests that have selected a backend and are not yet being forwarded
 }
 
 func (g *zzGate) Select(r *http.Request) *UpstreamHost {
 	h := g.Upstream.Select(r)
+	if h != nil {
+		g.mu.Lock()
+		g.pending++
+		if g.pending >= 2 {
+			// two requests are between "backend chosen" and "counted and forwarded" at the same time:
+			// the history class of the recorded known finding (check-then-act on max_conns)
+			verifrt.Tag("two-requests-between-select-and-forward")
+		}
+		g.mu.Unlock()
+	}
 	if !g.enabled {
 		return h
 	}
@@ -103,7 +120,8 @@ func VerifH14aAccounting() {
 	n := 2
 	maxConns := int64(verifrt.IntRange("max_conns", 0, 2))
 	failTimeout := 10 * time.Second
-	u := &staticUpstream{from: "/", MaxFails: 3, FailTimeout: failTimeout, MaxConns: maxConns}
+	maxFails := []int32{3, 1}[verifrt.Choose("max_fails", 2)]
+	u := &staticUpstream{from: "/", MaxFails: maxFails, FailTimeout: failTimeout, MaxConns: maxConns}
 	h, err := u.NewHost("http://backend")
 	if err != nil {
 		verifrt.Fail("newhost")
@@ -117,6 +135,7 @@ func VerifH14aAccounting() {
 	h.ReverseProxy.FlushInterval = 0
 	u.Hosts = HostPool{h}
 	gate := &zzGate{Upstream: u, n: n, open: make(chan struct{}), enabled: verifrt.Bool("select-window")}
+	be.gate = gate
 	p := Proxy{Upstreams: []Upstream{gate}}
 	var wg sync.WaitGroup
 	statuses := make([]int, n)
@@ -146,7 +165,9 @@ func VerifH14aAccounting() {
 			nfail++
 		}
 	}
-	verifrt.Assert(int(atomic.LoadInt32(&h.Fails)) <= nfail, "fails-not-above-recorded-failures")
+	// no time has passed: every failed forward is on record (also one that fails while the backend
+	// is already marked down), and nothing else is
+	verifrt.Assert(int(atomic.LoadInt32(&h.Fails)) == nfail, "every-failure-recorded-for-fail-timeout")
 	verifrt.DrainGoroutines() // the expiry goroutines have started their sleep
 	verifrt.AdvanceTime(failTimeout + time.Second)
 	if verifrt.Symbolic() {
@@ -204,4 +225,66 @@ func VerifH14bOneStep() {
 		verifrt.AdvanceTime(2 * time.Second)
 		verifrt.Assert(h.Fails == f0, "failure-expires-after-fail-timeout")
 	}
+}
+
+// zzFailoverBackend checks, from inside each forwarding window of a single request that may fail
+// over from one backend to the next, that every backend's in-flight counter equals the number of
+// requests being forwarded to it at that moment.
+type zzFailoverBackend struct {
+	idx     int
+	hosts   *HostPool
+	fail    bool
+	calls   int
+	badSelf bool
+	badPeer bool
+}
+
+func (b *zzFailoverBackend) RoundTrip(req *http.Request) (*http.Response, error) {
+	b.calls++
+	for i, h := range *b.hosts {
+		c := atomic.LoadInt64(&h.Conns)
+		if i == b.idx && c != 1 {
+			b.badSelf = true
+		}
+		if i != b.idx && c != 0 {
+			b.badPeer = true
+		}
+	}
+	if b.fail {
+		return nil, errors.New("backend failed")
+	}
+	return &http.Response{StatusCode: 200, Header: http.Header{}, Body: http.NoBody}, nil
+}
+
+// VerifH14cFailover: one request, 2..3 backends, any subset failing, retries enabled: while the
+// request is being forwarded to one backend no other backend counts it as in flight (so max_conns
+// of a backend that already failed is not consumed), and all counters return to zero.
+func VerifH14cFailover() {
+	n := verifrt.IntRange("hosts", 2, 3)
+	u := &staticUpstream{from: "/", MaxFails: 1, FailTimeout: 10 * time.Second, MaxConns: 1, TryDuration: 3 * time.Second, TryInterval: 250 * time.Millisecond,
+		Policy: &First{}}
+	var bes []*zzFailoverBackend
+	for i := 0; i < n; i++ {
+		h, err := u.NewHost("http://backend")
+		if err != nil {
+			verifrt.Fail("newhost")
+			return
+		}
+		be := &zzFailoverBackend{idx: i, hosts: &u.Hosts, fail: verifrt.Bool("fails")}
+		h.ReverseProxy.Transport = be
+		h.ReverseProxy.FlushInterval = 0
+		u.Hosts = append(u.Hosts, h)
+		bes = append(bes, be)
+	}
+	p := Proxy{Upstreams: []Upstream{u}}
+	r := &http.Request{Method: "GET", URL: &url.URL{Path: "/"}, Header: http.Header{}, Host: "site", RemoteAddr: "1.2.3.4:5"}
+	p.ServeHTTP(&zzW14{}, r)
+	calls := 0
+	for i, be := range bes {
+		calls += be.calls
+		verifrt.Assert(!be.badSelf, "forwarding-backend-counts-the-request-once")
+		verifrt.Assert(!be.badPeer, "no-other-backend-counts-the-request")
+		verifrt.Assert(atomic.LoadInt64(&u.Hosts[i].Conns) == 0, "in-flight-returns-to-zero")
+	}
+	verifrt.Observe("failover", calls)
 }
